@@ -776,6 +776,16 @@ def util_describe(ev):
     return "event %s not accepted" % k
 
 
+def examples_describe(ev):
+    k = ev.get("ev")
+    if k == "xreq":
+        return ("a request sent by an example program is not the step of MC_Examples due at this point of its session: "
+                "IPP header %s, %s payload octets, equals document(s) %s" % (json.dumps(ev.get("hdr_ipp")), ev.get("paylen"), ev.get("paymatch")))
+    if k == "xexit":
+        return "an example program exited with status %s, or after a number of requests, that MC_Examples does not give its session" % ev.get("code")
+    return "event %s not accepted" % k
+
+
 def check_C18(chk):
     q = chk.tier == "quick"
     chk.rule = ("sessions = command lines {-n on/off} x {file, stdin} x {0 B, small, 150-400 KiB (0.3-2 MiB thorough)} x job name x user name x "
@@ -804,6 +814,137 @@ def check_C18(chk):
     run_sample(chk, out)
     validate_with_retries(chk, "trace_util", "Trace_Util.tla", os.path.join(out, "trace.ndjson"),
                           os.path.join(out, "trace.side.ndjson"), describe=util_describe, drop_runs=True,
-                          block=(("ustart", "ostart"), ("ustart", "ostart")))
+                          block=(("ustart", "ostart"), ("ustart", "ostart")), extension_evs=("ostart", "oreq", "oexit"))
     chk.extra["events_validated"] = chk.traces
     chk.traces = max(0, chk.evaluations - len(chk.violations))
+    # extension beyond the listed property: the example programs (multi-document job protocol and five single exchanges)
+    bindir = build_examples()
+    xcases = os.path.join(wd, "xcases.ndjson")
+    r = mc("C18", "mc_examples", "MC_Examples.tla", dict(MaxDocs=3),
+           ["MultiDocOrder", "SendOnlyIntoCreatedJob", "DocsInOrderOnce", "LastExactlyOnFinal", "NoSendAfterFailure",
+            "ExitZeroIffComplete", "OneRequestOthers", "JobClosedIfComplete", "Gen"], properties=["Terminates"], case_file=xcases)
+    chk.add_mc(r, "MC_Examples MaxDocs=3 (multi-doc, print-job, print-job-async, get-attrs, get-printers, delete-printer)")
+    xout = os.path.join(wd, "xrun")
+    harness("vh", ["examples", "--out", xout, "--seed", chk.seed, "--cases", xcases, "--bindir", bindir,
+                   "--limit", 200 if q else 2000], timeout=3600)
+    xr = json.load(open(os.path.join(xout, "run.json")))
+    ev_before, tr_before = chk.evaluations, chk.traces
+    validate_with_retries(chk, "trace_examples", "Trace_Examples.tla", os.path.join(xout, "trace.ndjson"),
+                          os.path.join(xout, "trace.side.ndjson"), describe=examples_describe, drop_runs=True,
+                          block=(("xstart",), ("xstart",)), extension_evs=("xstart", "xreq", "xexit"))
+    chk.traces = tr_before
+    chk.extra["extension_examples"] = {"sessions": xr["evaluations"], "events": xr["events"], "samples": xr["samples"][:2],
+                                       "rejections": len(chk.ext_rejections)}
+
+
+# ---------------------------------------------------------------------------------------------
+# Self-test of the specification (anti-vacuity): every deviation switch of the design - most of
+# them transcriptions of the defects found on the pinned tree - must be *refuted* by TLC with the
+# invariant that states the property.  A deviation TLC accepts means the invariant has lost its
+# teeth (or the switch its effect): tool error, exit 2.
+# (property, label, module, constants, invariants that may be named in the refutation, constraint)
+DEVIATIONS = [
+    ("C01", "D7 repeated operation groups dropped by the encoder", "MC_Wire.tla",
+     dict(WIRE_CONST, MaxTok=5, RepeatedOpGroups="dropped"), ["EncRoundTrip"], "Bound"),
+    ("C03", "D1 additional set values carry the tag of the first", "MC_Wire.tla",
+     dict(WIRE_CONST, MaxTok=5, SetSepTag="first"), ["EncWellFormed", "EncRoundTrip"], "Bound"),
+    ("C04", "D2 collection members paired by position", "MC_Wire.tla",
+     dict(WIRE_CONST, MaxTok=6, Pairing="positional"), ["ParserReadsRFC", "ReadingAgrees"], "Bound"),
+    ("C02", "D3 short fixed-width value panics", "MC_Total.tla",
+     dict(TOTAL_CONST, MaxLen=3, ShortValue="panic"), ["Total"], None),
+    ("C15", "D5 closing a collection clones what it holds", "MC_Wire.tla",
+     dict(WIRE_CONST, MaxTok=7, MaxDepth=3, CloseCost="clone"), ["LinearCost"], "Bound"),
+    ("C09", "D6 only three header attributes placed first", "MC_Ops.tla",
+     dict(MaxCalls=1, MaxExtra=1, HeaderAttrs="<- HeaderAttrs3", OpsUnderTest={"CancelJob", "SendDocument"}), ["HeaderFirst"], None),
+    ("C06", "a single read() instead of an exact read", "MC_Stream.tla",
+     dict(STREAM_BASE, Elems="<- Msg_m1", Avails={10}, Modes={"sync"}, MsgName="m1", ReadPrimitive="single"),
+     ["OkMeansAll", "Contiguous", "NoReadAhead", "Deterministic", "TruncNeverOk"], None),
+    ("C06", "an 8-octet buffered reader reads ahead", "MC_Stream.tla",
+     dict(STREAM_BASE, Elems="<- Msg_m1", Avails={13}, Modes={"sync"}, MsgName="m1", BufSize=8), ["NoReadAhead"], None),
+    ("C08", "payload delivered before header and attributes", "MC_Payload.tla",
+     dict(HLen=2, PLen=3, Kind="sync", Iface="sync", Bufs={1, 4}, Chunks={1, 3}, MaxPend=0, MaxIntr=0, MaxReads=9,
+          ChainOrder="payload-first"), ["InOrder"], None),
+    ("C11", "HTTP status not checked", "MC_Http.tla",
+     dict(Clients={1}, Framings={"length"}, Statuses={200, 503}, Cuts={False}, Stalls={False}, CheckStatus=False, Slots="own"),
+     ["OkOnlyIfGood"], None),
+    ("C11", "responses handed to whichever sender asks next", "MC_Http.tla",
+     dict(Clients={1, 2}, Framings={"length"}, Statuses={200}, Cuts={False}, Stalls={False}, CheckStatus=True, Slots="shared"),
+     ["OwnResponse", "GoodIsReturned"], None),
+    ("C12", "D9 DER root certificates dropped", "MC_Tls.tla", dict(DerRoots="dropped"), ["SuppliedRootAccepted"], None),
+    ("C18", "-n flag inverted", "MC_Util.tla", dict(NoCheckFlag="inverted", OptClasses={"int"}, MaxOpts=0),
+     ["NothingSubmittedWhenNotReady", "CheckComesFirst", "ExitZeroIffAllSucceeded"], None),
+    ("C18", "multi-doc example leaves the job open when a later step fails (named deviation of the code)", "MC_Examples.tla",
+     dict(MaxDocs=2), ["NeverLeavesJobOpen"], None),
+]
+
+
+URI_MUT_CONST = {}
+READY_MUT_CONST = dict(MaxReasons=2)
+ATTRS_MUT_CONST = dict(GKinds={1, 2, 4}, ANames={"x", "y"}, AVals={1, 2}, MaxAdds=3)
+OPS_MUT_CONST = dict(MaxCalls=2, MaxExtra=0, HeaderAttrs="<- HeaderAttrs5", OpsUnderTest=ALL_OPS)
+# design mutants: (property, module, constants, mutant invariant that must be refuted, what it transcribes)
+MUTANTS = [
+    ("C13", "MC_Uri.tla", URI_MUT_CONST, "Mut_KeepQuery", "query string copied into printer-uri"),
+    ("C13", "MC_Uri.tla", URI_MUT_CONST, "Mut_KeepUserinfo", "user name copied into printer-uri"),
+    ("C13", "MC_Uri.tla", URI_MUT_CONST, "Mut_FallbackV6", "raw target returned for IPv6 literals"),
+    ("C13", "MC_Uri.tla", URI_MUT_CONST, "Mut_DefaultPort", "default port added when none was given"),
+    ("C13", "MC_Uri.tla", URI_MUT_CONST, "Mut_DropPort", "explicit port dropped"),
+    ("C13", "MC_Uri.tla", URI_MUT_CONST, "Mut_SkipIpp", "ipp / ipps targets not canonicalised"),
+    ("C13", "MC_Uri.tla", URI_MUT_CONST, "Mut_RootPath", "path replaced by /"),
+    ("C14", "MC_Uri.tla", URI_MUT_CONST, "Mut_Ipps443", "D8 (known finding): ipps without port mapped to 443"),
+    ("C14", "MC_Uri.tla", URI_MUT_CONST, "Mut_TransportDropsQuery", "query dropped from the transport URL"),
+    ("C17", "MC_Ready.tla", READY_MUT_CONST, "Mut_FirstReasonOnly", "only the first reason of a set inspected"),
+    ("C17", "MC_Ready.tla", READY_MUT_CONST, "Mut_SingleKeywordOnly", "reasons inspected only when a single keyword"),
+    ("C17", "MC_Ready.tla", READY_MUT_CONST, "Mut_IdleShortcut", "idle printer reported ready without looking at the reasons"),
+    ("C17", "MC_Ready.tla", READY_MUT_CONST, "Mut_AnyPrinterGroup", "a stopped state in a later printer group counts"),
+    ("C17", "MC_Ready.tla", READY_MUT_CONST, "Mut_IgnoreStatus", "IPP status not checked"),
+    ("C19", "MC_Attrs.tla", ATTRS_MUT_CONST, "Mut_AppendAlways", "every addition opens a new group"),
+    ("C19", "MC_Attrs.tla", ATTRS_MUT_CONST, "Mut_LastGroup", "addition goes to the last group of the kind"),
+    ("C19", "MC_Attrs.tla", ATTRS_MUT_CONST, "Mut_KeepFirst", "an existing attribute of the same name is kept"),
+    ("C19", "MC_Attrs.tla", ATTRS_MUT_CONST, "Mut_PrependNew", "a new group is put in front"),
+    ("C19", "MC_Attrs.tla", ATTRS_MUT_CONST, "Mut_LookupFirstRun", "lookup returns only the first run of adjacent groups"),
+    ("C10", "MC_Ops.tla", OPS_MUT_CONST, "Mut_AttributesReplace", "attributes() replaces instead of accumulating"),
+    ("C10", "MC_Ops.tla", OPS_MUT_CONST, "Mut_ReqAttrsReplace", "attributes() of Get-Printer-Attributes replaces"),
+    ("C10", "MC_Ops.tla", OPS_MUT_CONST, "Mut_UserFirstWins", "a second user_name() is ignored"),
+    ("C10", "MC_Ops.tla", OPS_MUT_CONST, "Mut_LastInverted", "last-document inverted"),
+    ("C10", "MC_Ops.tla", OPS_MUT_CONST, "Mut_TitleIsUser", "job title written as requesting-user-name"),
+    ("C10", "MC_Ops.tla", OPS_MUT_CONST, "Mut_JobAttrsInOpGroup", "job attributes put into the operation group"),
+    ("C10", "MC_Ops.tla", OPS_MUT_CONST, "Mut_NoJobId", "job-id omitted"),
+    ("C10", "MC_Ops.tla", OPS_MUT_CONST, "Mut_WrongCode", "Get-Jobs sent with the code of Get-Job-Attributes"),
+]
+MUT_CONTROLS = {"MC_Uri.tla": ("C13", URI_MUT_CONST), "MC_Ready.tla": ("C17", READY_MUT_CONST),
+                "MC_Attrs.tla": ("C19", ATTRS_MUT_CONST), "MC_Ops.tla": ("C10", OPS_MUT_CONST)}
+
+
+def refute_deviations(chk):
+    from concurrent.futures import ThreadPoolExecutor
+    jobs = []
+    for i, (pid, label, module, const, invs, constraint) in enumerate(DEVIATIONS):
+        if pid == chk.pid:
+            jobs.append(("dev_%d" % i, label, module, const, invs, constraint))
+    for i, (pid, module, const, inv, label) in enumerate(MUTANTS):
+        if pid == chk.pid:
+            jobs.append(("mut_%d" % i, label, module, const, [inv], None))
+    if not jobs:
+        return
+    wd = workdir(chk.pid)
+
+    def one(job):
+        name, label, module, const, invs, constraint = job
+        cfg = os.path.join(wd, name + ".cfg")
+        write_cfg(cfg, spec="Spec", constants=const, invariants=invs, constraint=constraint)
+        return job, run_tlc(chk.pid, name, os.path.join(SPEC, module), cfg, workers=2, timeout=600, expect_violation=True, heap="2g")
+
+    done = []
+    with ThreadPoolExecutor(max_workers=6) as ex:
+        for job, r in ex.map(one, jobs):
+            name, label, module, const, invs, constraint = job
+            if r["violated"] not in invs:
+                raise ToolError("vacuity: deviation '%s' of %s is not refuted (TLC reported %s; see %s)" % (
+                    label, module, r["violated"] or (r["errors"][:1] or "no error"), r["out_path"]))
+            done.append({"deviation": label, "model": module, "refuted_by": r["violated"], "wall_s": round(r["wall"], 1)})
+    # control: the unmutated transcription passes the same statement (the mutant machinery itself is not what fails)
+    for module, (pid, const) in MUT_CONTROLS.items():
+        if pid == chk.pid:
+            mc(chk.pid, "mut_control", module, const, ["Mut_None"], workers=2, heap="2g")
+    chk.extra["deviations_refuted"] = done
